@@ -460,72 +460,8 @@ func setLocalRule(r *Run, rule string) {
 // ---- R4 ---------------------------------------------------------------------
 
 func helperScopeRule(r *Run, rule string) {
-	w := r.W
-	// PartialHelper
-	if f := w.Func("", "PartialHelper"); f != nil {
-		info := f.Pkg.TypesInfo
-		var helpP *types.Var
-		sig := f.Obj.Type().(*types.Signature)
-		for i := 0; i < sig.Params().Len(); i++ {
-			if namedIs(sig.Params().At(i).Type(), modPath, "HelperContext") {
-				helpP = sig.Params().At(i)
-			}
-		}
-		var replace *ast.AssignStmt
-		inspectBody(f.Decl.Body, false, func(n ast.Node) bool {
-			as, ok := n.(*ast.AssignStmt)
-			if !ok || len(as.Lhs) != 1 || len(as.Rhs) != 1 {
-				return true
-			}
-			x, fld := fieldOf(info, as.Lhs[0])
-			if fld == nil || !fld.Embedded() || objOf(info, x) != helpP {
-				return true
-			}
-			if c, ok := as.Rhs[0].(*ast.CallExpr); ok {
-				if sel, ok := unparen(c.Fun).(*ast.SelectorExpr); ok && objOf(info, sel.X) == helpP {
-					if cal := calleeOf(info, c); cal != nil && cal.Name() == "New" {
-						replace = as
-					}
-				}
-			}
-			return true
-		})
-		if helpP == nil || replace == nil {
-			r.Bad(rule, f.Name(), "help.Context = help.New()", w.Pos(f.Decl.Pos()), "the partial must run in a child of the caller's scope")
-		} else {
-			r.Ok(rule, f.Name(), short(w.Fset, replace), w.Pos(replace.Pos()), "child scope installed in the by-value helper context")
-			for _, c := range callsIn(f.Decl.Body, false) {
-				cal := calleeOf(info, c)
-				sel, isSel := unparen(c.Fun).(*ast.SelectorExpr)
-				if cal == nil || !isSel {
-					continue
-				}
-				if cal.Name() == "Set" && objOf(info, sel.X) == helpP {
-					if c.Pos() > replace.Pos() {
-						r.Ok(rule, f.Name(), "Set after the child was installed "+short(w.Fset, c), w.Pos(c.Pos()), "data lands in the child")
-					} else {
-						r.Bad(rule, f.Name(), "Set before the child scope exists "+short(w.Fset, c), w.Pos(c.Pos()), "partial data is written into the caller's scope")
-					}
-				}
-			}
-			// Render receives help.Context
-			okRender := false
-			for _, c := range callsIn(f.Decl.Body, false) {
-				if cal := calleeOf(info, c); cal != nil && cal.Name() == "Render" && len(c.Args) == 2 {
-					if x, fld := fieldOf(info, c.Args[1]); fld != nil && fld.Embedded() && objOf(info, x) == helpP && c.Pos() > replace.Pos() {
-						okRender = true
-					}
-				}
-			}
-			if okRender {
-				r.Ok(rule, f.Name(), "Render(part, help.Context)", w.Pos(f.Decl.Pos()), "rendered in the child scope")
-			} else {
-				r.Bad(rule, f.Name(), "Render context", w.Pos(f.Decl.Pos()), "the partial text must be rendered with the child scope that received the data")
-			}
-		}
-	} else {
-		r.Lost(rule, "PartialHelper")
-	}
+	_ = r.W
+	partialRulesSSA(r, rule, "", "", "")
 	// contentOf / contentFor
 	contentRulesSSA(r, "", "", "", rule)
 }
